@@ -382,7 +382,14 @@ func cmdCheck(args []string) int {
 		}
 
 		// translator validation: run the sampled paths natively and compare observations
-		if len(rep.Samples) > 0 {
+		if len(rep.Samples) > 0 && params["no_native_validation"] == 1 {
+			hc["native_validation"] = "skipped: the native twin of this harness is a different program (concurrent loads under the race detector)"
+			for k, s := range rep.Samples {
+				if k < 3 {
+					samples = append(samples, map[string]interface{}{"harness": h.Fn, "decisions": s.Decs, "inputs": s.Inputs, "observed": s.Obs, "status": s.Status})
+				}
+			}
+		} else if len(rep.Samples) > 0 {
 			var cases []nativeCase
 			for _, s := range rep.Samples {
 				cases = append(cases, nativeCase{Harness: h.Fn, Params: params, Inputs: s.Inputs})
@@ -442,12 +449,15 @@ func cmdCheck(args []string) int {
 				tries = 3
 			}
 			var replayEnv []string
+			if params["native_race"] == 1 {
+				replayEnv = append(replayEnv, "VRT_RACE=1")
+			}
 			if strings.HasPrefix(v.Label, "hang@") || strings.HasPrefix(v.Label, "stack@") {
 				tries = 1
 			}
 			if v.Label == "deadlock" {
 				// a schedule-dependent hang: several short attempts, each case in its own process
-				replayEnv = []string{"VRT_TIMEOUT_S=4"}
+				replayEnv = append(replayEnv, "VRT_TIMEOUT_S=4")
 				if tries > 10 {
 					tries = 10
 				}
@@ -471,12 +481,15 @@ func cmdCheck(args []string) int {
 					detail = firstLine(r.Panic)
 				} else {
 					for _, f := range r.Failed {
-						if f == v.Label {
+						if f == v.Label || (strings.HasPrefix(v.Label, f+"#") && strings.HasPrefix(f, "no-unsynchronised-write")) {
 							confirmed = true
 						}
 					}
 					if r.Status == "panic" {
 						detail = "native run panicked: " + firstLine(r.Panic)
+					}
+					if strings.HasPrefix(r.Panic, "go race detector:") {
+						detail = r.Panic
 					}
 				}
 			}
@@ -634,7 +647,13 @@ func runNative(scratch, pkgDir string, cases []nativeCase, extraEnv []string) ([
 	cb, _ := json.Marshal(cases)
 	os.WriteFile(cf, cb, 0o644)
 	of := filepath.Join(work, "out.json")
-	cmd := exec.Command("go", "test", "-vet=off", "-count=1", "-timeout", "300s", "-overlay", ovf, "-run", "^TestVerifReplay$", "./"+pkgDir)
+	args := []string{"test", "-vet=off", "-count=1", "-timeout", "300s", "-overlay", ovf, "-run", "^TestVerifReplay$", "./" + pkgDir}
+	for _, e := range extraEnv {
+		if e == "VRT_RACE=1" {
+			args = append([]string{"test", "-race"}, args[1:]...)
+		}
+	}
+	cmd := exec.Command("go", args...)
 	cmd.Dir = repo
 	cmd.Env = append(os.Environ(), "GOFLAGS=-mod=mod", "GOPROXY=off", "GOSUMDB=off", "GOTOOLCHAIN=local", "VRT_CASES="+cf, "VRT_OUT="+of, "VRT_WORK="+work, "VRT_ROOT="+interp.VRoot)
 	cmd.Env = append(cmd.Env, extraEnv...)
@@ -643,7 +662,16 @@ func runNative(scratch, pkgDir string, cases []nativeCase, extraEnv []string) ([
 	if err != nil {
 		return nil, fmt.Errorf("native run produced no output: %v: %s", runErr, tail(string(out), 2000))
 	}
+	raceSeen := strings.Contains(string(out), "WARNING: DATA RACE")
 	var res []nativeResult
+	defer func() {
+		if raceSeen {
+			for k := range res {
+				res[k].Failed = append(res[k].Failed, "no-unsynchronised-write-to-shared-state")
+				res[k].Panic = "go race detector: " + raceSummary(string(out))
+			}
+		}
+	}()
 	for _, l := range strings.Split(strings.TrimSpace(string(b)), "\n") {
 		if l == "" {
 			continue
@@ -680,6 +708,25 @@ func runNative(scratch, pkgDir string, cases []nativeCase, extraEnv []string) ([
 		}
 	}
 	return res, nil
+}
+
+func raceSummary(out string) string {
+	k := strings.Index(out, "WARNING: DATA RACE")
+	if k < 0 {
+		return ""
+	}
+	lines := strings.Split(out[k:], "\n")
+	var keep []string
+	for _, l := range lines {
+		l = strings.TrimSpace(l)
+		if strings.HasPrefix(l, "github.com/compose-spec") || strings.HasPrefix(l, "Write at") || strings.HasPrefix(l, "Previous") || strings.HasPrefix(l, "Read at") {
+			keep = append(keep, l)
+		}
+		if len(keep) >= 6 {
+			break
+		}
+	}
+	return strings.Join(keep, " | ")
 }
 
 func tail(s string, n int) string {
